@@ -10,7 +10,7 @@ from harness.creators import SHAPES, BLOCK
 import refconc
 
 PROPERTY = "C03"
-MODULES = ["torrent", "hasher", "utils", "mixins"]
+MODULES = ["torrent", "hasher", "utils", "mixins", "cli", "commands"]
 ASSUMPTIONS = [
     "A-hash model (injective sha1/sha256); pass verdicts need no assumption on contents",
     "piece length is a configuration ({16,32,64} KiB); sizes and listing order are solver variables",
@@ -35,6 +35,10 @@ def jobs(tier):
     for which in ("3a", "3c"):       # always in the quick tier: names holding the other platform's separator (v1 path lists vs v2 tree keys)
         out.append(("%s.flat2~backslash.P16384" % which, "job", dict(which=which, shape="flat2~backslash", P=16384, K=1, order="reversed")))
         out.append(("%s.nested3~backslash.P16384" % which, "job", dict(which=which, shape="nested3~backslash", P=16384, K=1, order="reversed")))
+    from harness import matrix
+    for i, row in matrix.rows(tier):
+        for which in (("3a", "3c") if not q else (("3a",) if i % 2 else ("3c",))):
+            out.append(("matrix.%s.%s" % (which, matrix.label(i, row)), "job_matrix", dict(which=which, row=row)))
     # a second hybrid creation in the same process with another piece length (shared buffers, memo tables)
     for which in ("3a", "3c"):
         out.append(("%s.second.P16384-then-P65536" % which, "job_second", dict(which=which, P1=16384, P2=65536)))
@@ -76,6 +80,12 @@ def job(E, which, shape, P, K, order, align=False, _mutants=None):
             E.witnesses.setdefault("single file with short last piece", True)
 
 
+def job_matrix(E, which, row, _mutants=None):
+    from harness import matrix
+    matrix.run(E, which, row, lambda e, meta, sizes, Pn, shape: orc.oracle_hybrid_v1(e, meta, sizes, Pn, shape, "C03.matrix"),
+               "C03.matrix", _mutants=_mutants)
+
+
 def job_second(E, which, P1, P2, _mutants=None):
     from symx.afs import AFS
     fs = AFS(order="reversed")
@@ -109,6 +119,13 @@ def conc_hybrid(meta, data, P, shape):
 
 
 def replay(params, model, notes, workdir, seed):
+    if "row" in params:
+        from harness import matrix
+        row = params["row"]
+        meta, data, Pn = matrix.replay(params["which"], row, model, workdir, seed)
+        if isinstance(meta, BaseException):
+            return ["C03.matrix.no-exception: %s: %s" % (type(meta).__name__, meta)]
+        return ["C03.matrix." + b for b in conc_hybrid(meta, data, Pn, row["tree"])]
     if "P1" in params:
         shape = "flat2"
         sizes = cr.concrete_sizes(shape, model)
